@@ -40,11 +40,13 @@ inductive Ctl (ρ σ : Type) where
   | next (s : σ)   -- fell off the end of the body, or `continue`
   | brk (s : σ)    -- `break`
   | ret (r : ρ)    -- `return r`
+  deriving DecidableEq
 
 /-- how the whole loop ended -/
 inductive Out (ρ σ : Type) where
   | done (s : σ)   -- ran to completion or `break`: execution continues after the loop
   | ret (r : ρ)    -- the enclosing function returned `r` from inside the loop
+  deriving DecidableEq
 
 /-- a Go `for` over the iteration values `xs` with loop state `σ` -/
 def loop {α ρ σ : Type} : List α → σ → (α → σ → Ctl ρ σ) → Out ρ σ
@@ -94,18 +96,18 @@ def decodeRune : Bytes → Int × Nat
     else if n0 < 0xF0 then
       match rest with
       | b1 :: b2 :: _ =>
-        let lo := if n0 = 0xE0 then 0xA0 else 0x80
-        let hi := if n0 = 0xED then 0x9F else 0xBF
-        if lo ≤ b1.toNat ∧ b1.toNat ≤ hi ∧ 0x80 ≤ b2.toNat ∧ b2.toNat ≤ 0xBF then
+        -- second byte: 80…BF, but A0…BF after E0 (no overlong forms) and 80…9F after ED (no surrogates)
+        if 0x80 ≤ b1.toNat ∧ b1.toNat ≤ 0xBF ∧ (n0 ≠ 0xE0 ∨ 0xA0 ≤ b1.toNat) ∧ (n0 ≠ 0xED ∨ b1.toNat ≤ 0x9F) ∧
+            0x80 ≤ b2.toNat ∧ b2.toNat ≤ 0xBF then
           (Int.ofNat ((n0 - 0xE0) * 4096 + (b1.toNat - 0x80) * 64 + (b2.toNat - 0x80)), 3)
         else (65533, 1)
       | _ => (65533, 1)
     else if n0 < 0xF5 then
       match rest with
       | b1 :: b2 :: b3 :: _ =>
-        let lo := if n0 = 0xF0 then 0x90 else 0x80
-        let hi := if n0 = 0xF4 then 0x8F else 0xBF
-        if lo ≤ b1.toNat ∧ b1.toNat ≤ hi ∧ 0x80 ≤ b2.toNat ∧ b2.toNat ≤ 0xBF ∧ 0x80 ≤ b3.toNat ∧ b3.toNat ≤ 0xBF then
+        -- second byte: 80…BF, but 90…BF after F0 (no overlong forms) and 80…8F after F4 (≤ U+10FFFF)
+        if 0x80 ≤ b1.toNat ∧ b1.toNat ≤ 0xBF ∧ (n0 ≠ 0xF0 ∨ 0x90 ≤ b1.toNat) ∧ (n0 ≠ 0xF4 ∨ b1.toNat ≤ 0x8F) ∧
+            0x80 ≤ b2.toNat ∧ b2.toNat ≤ 0xBF ∧ 0x80 ≤ b3.toNat ∧ b3.toNat ≤ 0xBF then
           (Int.ofNat ((n0 - 0xF0) * 262144 + (b1.toNat - 0x80) * 4096 + (b2.toNat - 0x80) * 64 + (b3.toNat - 0x80)), 4)
         else (65533, 1)
       | _ => (65533, 1)
